@@ -197,6 +197,9 @@ func genC14(t *Tape) *shScenario {
 	}
 	sc.SlowOps = t.Choose(2) == 0
 	sc.TimeoutErrKind = t.Choose(3)
+	if sc.Kind != KSerial && !epoch && t.Chance(1, 8) {
+		sc.TimeoutErrKind = 3 // a non-blocking connection: no timeout errors at all, empty reads return (0, nil)
+	}
 	sc.UnitBase = 1 - t.Choose(4)/3 // 0 in a quarter of the runs
 	sc.ShortTimeouts = sc.Kind != KSerial && !sc.Cancels && t.Choose(3) == 0
 	if epoch {
@@ -229,6 +232,8 @@ func runShared(rc *RunCtx, sc *shScenario) *shOutcome {
 	}
 	if sc.Epoch {
 		s.MaxSteps = 20000000
+	} else if sc.TimeoutErrKind == 3 {
+		s.MaxSteps = 600000 // every empty poll of a non-blocking connection is a step
 	}
 	out := &shOutcome{}
 	defer s.Activate()()
@@ -352,6 +357,8 @@ func runShared(rc *RunCtx, sc *shScenario) *shOutcome {
 			cl.TimeoutErr = &net.OpError{Op: "read", Net: "sim", Err: os.ErrDeadlineExceeded}
 		case 2:
 			cl.TimeoutErr = fmt.Errorf("conn wrapper: %w", os.ErrDeadlineExceeded) // an annotating wrapper: no Timeout method of its own
+		case 3:
+			cl.ZeroNilPoll = 20 * time.Microsecond
 		}
 		dev.Name = fmt.Sprintf("p%d.dev", k)
 		if !sc.Race {
@@ -431,9 +438,17 @@ func runShared(rc *RunCtx, sc *shScenario) *shOutcome {
 		cl.SerialMode = true
 		cl.PortTimeout = 2 * time.Millisecond
 		cl.MinReadCost = 500 * time.Microsecond
-		var port io.ReadWriteCloser = slowClosePlainPort{plainPort{cl}, sc.SlowOps}
+		// a serial port is not safe for concurrent use: nothing but the client keeps calls on it one at a time
+		pm := &portMon{note: func(what string) {
+			mon.Lock()
+			if out.IOBad == "" && !sc.Race {
+				out.IOBad = what
+			}
+			mon.Unlock()
+		}}
+		var port io.ReadWriteCloser = slowClosePlainPort{plainPort{cl}, sc.SlowOps, pm}
 		if sc.Flusher {
-			port = discardingFlushPort{cl, sc.SlowOps} // a port whose Flush really discards what has not been read yet
+			port = discardingFlushPort{cl, sc.SlowOps, pm} // a port whose Flush really discards what has not been read yet
 		}
 		opts := []modbus.SerialClientOptionFunc{modbus.WithSerialReadTimeout(200 * time.Millisecond)}
 		if hooks != nil {
@@ -787,15 +802,48 @@ func describeHistory(recs []shRec) string {
 type discardingFlushPort struct {
 	c    *Conn
 	slow bool
+	mon  *portMon
 }
 
 // slowClosePlainPort: a port without Flush whose Close takes a moment.
 type slowClosePlainPort struct {
 	plainPort
 	slow bool
+	mon  *portMon
+}
+
+// portMon notes when two goroutines are inside the port's Close at the same time.
+type portMon struct {
+	mu      sync.Mutex
+	closing int
+	note    func(string)
+}
+
+func (m *portMon) enter() {
+	if m == nil {
+		return
+	}
+	m.mu.Lock()
+	m.closing++
+	n := m.closing
+	m.mu.Unlock()
+	if n > 1 {
+		m.note("two goroutines were inside the serial port's Close at the same time")
+	}
+}
+
+func (m *portMon) leave() {
+	if m == nil {
+		return
+	}
+	m.mu.Lock()
+	m.closing--
+	m.mu.Unlock()
 }
 
 func (p slowClosePlainPort) Close() error {
+	p.mon.enter()
+	defer p.mon.leave()
 	if p.slow {
 		takeTime(p.c.sim, "port-close:"+p.c.Name, p.c.locker(), 200*time.Microsecond)
 	}
@@ -816,6 +864,8 @@ func takeTime(s *Sim, id string, lk sync.Locker, d time.Duration) {
 func (p discardingFlushPort) Read(b []byte) (int, error)  { return p.c.Read(b) }
 func (p discardingFlushPort) Write(b []byte) (int, error) { return p.c.Write(b) }
 func (p discardingFlushPort) Close() error {
+	p.mon.enter()
+	defer p.mon.leave()
 	if p.slow {
 		takeTime(p.c.sim, "port-close:"+p.c.Name, p.c.locker(), 200*time.Microsecond)
 	}
